@@ -872,7 +872,9 @@ def _rebind_obj(v, st1, st, iz, last):
         c = st1.heap.get(v.sid)
         if c is None:
             return v
-        if v.sid in st.heap and st.heap[v.sid] is c:
+        if v.sid in st.heap:
+            # the cell exists outside the loop body (allocated before the loop): its content after the loop is the one the
+            # summary installed (or the unchanged pre-loop content), never the discovery run's havocked content
             return v
         fn = c.data
 
